@@ -23,6 +23,7 @@
   (statement kept as the comment `fold_unfold_id` below).
 -/
 import SF.Gotype.Unfold
+import SF.Proofs.FuIdTop
 namespace SF.Props.C11
 open SF SF.Unf
 
@@ -81,3 +82,126 @@ example : NumKind.i8.inRange (-128) = true ∧ NumKind.u64.inRange 1844674407370
    (≈ : nil ≙ empty slices/maps, omitted-when-empty fields zero, dropped fields zero). -/
 
 end SF.Props.C11
+
+
+/-! ## the COMPOSED statement, direct path: Fold then Unfold reproduces the value
+(proofs SF/Proofs/FuId{Fold,Tokens,Run,Agree,Iface,Ptr,Top}.lean)
+
+Stated in the vocabulary of the op `fu` (SF/Ops/Fu.lean): the events `Fold.impl` delivers for `v : T`
+are fed (`feed`, extended events through their expansion) to an Unfolder whose target is a fresh
+zero value of the translated type; the run is accepted, the context is the new Unfolder's again but
+for the target, the target holds the translated value, and the oracle's comparison `agreeF "direct"`
+accepts it.  Families: scalars of every kind and width (bit-exact floats incl. signalling NaNs,
+exact integers), `[]T`, `map[string]T` under EVERY map iteration order, `interface{}` holding any of
+these (the generic value keeps the element types), `*T`.  No bound on the size of the values.
+The codec legs are C01; structs: C12 (fold side) and C13 (unfold side) separately + the `fu`
+correspondence over four paths. -/
+
+namespace SF.PropsFu.C11
+open SF SF.Gotype SF.Gotype.Fold SF.FoldProofs SF.FuId
+open SF.Unf (Ctx newUnfolder setTarget)
+open SF.Ops.Unf (xevToUEvs)
+open SF.Ops.Fu (feed agreeF)
+
+/-- C11, scalars: bool, string, int8 … int64, int, uint8 … uint64, uint, float32, float64.  Every
+value of the type: exact for integers at every width, BIT-exact for floats (every NaN payload,
+signalling or quiet, ±0, ±Inf), any bytes for strings -/
+theorem fold_unfold_scalar (o : FoldOpts) (hfail : o.failAt = none) (p : Prim) (v : GoVal)
+    (hv : hasPrim p v = true) :
+    ∃ ut c0 c1,
+      Unf.Tr.trType (primTy p) = some ut ∧
+      setTarget Unf.Tr.fuTable ut (Unf.zero Unf.Tr.fuTable ut) newUnfolder = .ok c0 ∧
+      (impl o (primTy p) v).res = .ok ∧
+      feed c0 ((impl o (primTy p) v).evs.map xevToUEvs) = (c1, none) ∧
+      c1.target = trPrim p v ∧
+      c1 = { newUnfolder with target := trPrim p v, env := Unf.Tr.fuTable } ∧
+      back c1.target = v ∧
+      agreeF "direct" 1000 (primTy p) v (back c1.target) = true :=
+  SF.Props.FuId.fold_unfold_scalar o hfail p v hv
+
+/-- C11, `[]T` (`T` scalar): nil, empty, or any elements; Fold delivers ONE typed-array event, which
+reaches the Unfolder through its expansion; the target holds exactly the translated elements; nil
+and empty both come back as nil (identified) -/
+theorem fold_unfold_slice (o : FoldOpts) (hfail : o.failAt = none) (p : Prim) (v : GoVal) (xs : List GoVal)
+    (hv : sliceElems? v = some xs) (hxs : ∀ x ∈ xs, hasPrim p x = true) :
+    ∃ ut c0 c1,
+      Unf.Tr.trType (.slice (primTy p)) = some ut ∧
+      setTarget Unf.Tr.fuTable ut (Unf.zero Unf.Tr.fuTable ut) newUnfolder = .ok c0 ∧
+      (impl o (.slice (primTy p)) v).res = .ok ∧
+      feed c0 ((impl o (.slice (primTy p)) v).evs.map xevToUEvs) = (c1, none) ∧
+      c1.target = (if xs.isEmpty then .sliceNil (uPrimTy p) else .slice (uPrimTy p) (xs.map (trPrim p)) []) ∧
+      c1 = { newUnfolder with target := c1.target, env := Unf.Tr.fuTable } ∧
+      back c1.target = (if xs.isEmpty then .nilSlice else .slice xs) ∧
+      agreeF "direct" 1000 (.slice (primTy p)) v (back c1.target) = true :=
+  SF.Props.FuId.fold_unfold_slice o hfail p v xs hv hxs
+
+/-- C11, `map[string]T` (`T` scalar): nil, empty, or any entries with pairwise distinct string keys
+(a Go map), under EVERY iteration order the order oracle dictates: the target holds exactly the
+translated entries (a permutation, in delivery order); nil and empty both come back as nil -/
+theorem fold_unfold_map (o : FoldOpts) (hfail : o.failAt = none) (hord : hintOK o.order) (p : Prim) (v : GoVal)
+    (ms : List (GoVal × GoVal)) (hv : mapEntries? v = some ms) (hms : ∀ m ∈ ms, hasEntry p m = true)
+    (hnd : (ms.map fun m => getS m.1).Nodup) :
+    ∃ ut c0 c1 fin,
+      Unf.Tr.trType (.map .string (primTy p)) = some ut ∧
+      setTarget Unf.Tr.fuTable ut (Unf.zero Unf.Tr.fuTable ut) newUnfolder = .ok c0 ∧
+      (impl o (.map .string (primTy p)) v).res = .ok ∧
+      feed c0 ((impl o (.map .string (primTy p)) v).evs.map xevToUEvs) = (c1, none) ∧
+      fin.Perm (ms.map fun m => (getS m.1, trPrim p m.2)) ∧
+      c1.target = (if fin.isEmpty then .mapNil (uPrimTy p) else .map (uPrimTy p) fin) ∧
+      c1 = { newUnfolder with target := c1.target, env := Unf.Tr.fuTable } ∧
+      agreeF "direct" 1000 (.map .string (primTy p)) v (back c1.target) = true :=
+  SF.Props.FuId.fold_unfold_map o hfail hord p v ms hv hms hnd
+
+/-- C11, `interface{}` holding a `[]T`: the empty-interface target receives the generic value, which
+keeps the element type (`[]int8` inside `interface{}` comes back as `[]int8`); nil / empty ↦ nil `[]T` -/
+theorem fold_unfold_iface_slice (o : FoldOpts) (hfail : o.failAt = none) (p : Prim) (v : GoVal) (xs : List GoVal)
+    (hv : sliceElems? v = some xs) (hxs : ∀ x ∈ xs, hasPrim p x = true) :
+    ∃ ut c0 c1,
+      Unf.Tr.trType .iface = some ut ∧
+      setTarget Unf.Tr.fuTable ut (Unf.zero Unf.Tr.fuTable ut) newUnfolder = .ok c0 ∧
+      (impl o .iface (.iface (.slice (primTy p)) v)).res = .ok ∧
+      feed c0 ((impl o .iface (.iface (.slice (primTy p)) v)).evs.map xevToUEvs) = (c1, none) ∧
+      c1.target = .ifc (if xs.isEmpty then .sliceNil (uPrimTy p) else .slice (uPrimTy p) (xs.map (trPrim p)) []) ∧
+      c1 = { newUnfolder with target := c1.target, env := Unf.Tr.fuTable } :=
+  SF.Props.FuId.fold_unfold_iface_slice o hfail p v xs hv hxs
+
+/-- C11, `*T` (`T` scalar): nil ↦ nil pointer; `&y` ↦ a pointer to a fresh cell holding the translated
+`y`; all six stacks idle afterwards.  Exact for every kind except that `*float32` holding a SIGNALLING
+NaN comes back QUIETED (`float32(v.Float())` in the reflection path — the reading "any NaN ≙ any NaN
+of the same width"); the oracle's comparison is proved under the side condition `hq`, which
+`ptr_side_condition` discharges for every pointee type but float32 and for float32 values that are no NaN -/
+theorem fold_unfold_ptr (o : FoldOpts) (hfail : o.failAt = none) (p : Prim) (v : GoVal) (hv : hasPtr p v = true) :
+    ∃ ut c0 c1,
+      Unf.Tr.trType (.ptr (primTy p)) = some ut ∧
+      setTarget Unf.Tr.fuTable ut (Unf.zero Unf.Tr.fuTable ut) newUnfolder = .ok c0 ∧
+      (impl o (.ptr (primTy p)) v).res = .ok ∧
+      feed c0 ((impl o (.ptr (primTy p)) v).evs.map xevToUEvs) = (c1, none) ∧
+      c1.target = (match trPtr p v with | none => .ptrNil (uPrimTy p) | some w => .ptr (uPrimTy p) w) ∧
+      c1 = { newUnfolder with target := c1.target, env := Unf.Tr.fuTable, cells := c1.cells } ∧
+      c1.depths = [0, 0, 0, 0, 0, 0] ∧
+      ((∀ y, v = .ptr y → trPtrElem p y = trPrim p y) →
+        agreeF "direct" 1000 (.ptr (primTy p)) v (back c1.target) = true) :=
+  SF.Props.FuId.fold_unfold_ptr o hfail p v hv
+
+theorem ptr_side_condition (p : Prim) (y : GoVal) (h : p ≠ .f32 ∨ isNaN32 (getF32 y) = false) :
+    trPtrElem p y = trPrim p y :=
+  SF.Props.FuId.ptr_side_condition p y h
+
+/-- non-vacuity, the pipeline evaluated by the kernel: `uint64` MaxUint64, a SIGNALLING float32 NaN
+(bit-exact), `[]int16{-200, 0, 32767}`, nil `[]string`, `map[string]string{"a":"b","b":"c"}` under an
+order oracle asking for "b" first -/
+example :
+    (match SF.Props.FuId.pipe {} (.int .u64) (.int 18446744073709551615) with
+     | some (.int .u64 18446744073709551615) => true | _ => false) = true ∧
+    (match SF.Props.FuId.pipe {} .float32 (.f32 0x7fa00001) with
+     | some (.f32 0x7fa00001) => true | _ => false) = true ∧
+    (match SF.Props.FuId.pipe {} (.slice (.int .i16)) (.slice [.int (-200), .int 0, .int 32767]) with
+     | some (.slice (.int .i16) [.int .i16 (-200), .int .i16 0, .int .i16 32767] []) => true | _ => false) = true ∧
+    (match SF.Props.FuId.pipe {} (.slice .string) .nilSlice with
+     | some (.sliceNil .string) => true | _ => false) = true ∧
+    (match SF.Props.FuId.pipe { order := [.strObj [([98], []), ([97], [])]] } (.map .string .string)
+      (.map [(.str [97], .str [98]), (.str [98], .str [99])]) with
+    | some (.map .string [([98], .str [99]), ([97], .str [98])]) => true
+    | _ => false) = true := by decide +kernel
+
+end SF.PropsFu.C11
